@@ -6,8 +6,9 @@ def node_rx(n, key='unsigned long', db='db'):
     return r'^unodb::detail::basic_inode_%d<unodb::detail::basic_art_policy<%s, %s, unodb::%s, .*>::' % (n, key, SPAN, db)
 CLSN = {1: 4, 2: 16, 3: 48, 4: 256}
 CFG_TREE = (BASE, DEBUG, 'sse41-stats-ndebug-pause')
-SPEC_LOOPS = {'nv_load.0': 260, 'nv_load.1': 260, 'nv_wf_48_full.0': 50, 'nv_wf_48_full.1': 260, 'head_.0': 260, 'head_.1': 260, 'head_.2': 260}
-UNW = {0: 40, 1: 40, 2: 50, 3: 258, 4: 258}      # real-code loops: bounded by the node capacity handled per class; the 256-step spec loops get their own bound
+SPEC_LOOPS = {'nv_load.0': 260, 'nv_load.1': 260, 'nv_child.0': 18, 'nv_wf_small.0': 18, 'nv_wf_48_full.0': 50, 'nv_wf_48_full.1': 260, 'head_.0': 260, 'head_.1': 260, 'adt_tag.0': 10, 'ghostA.0': 8,
+              'stats_check.0': 7, 'stats_check.1': 6, 'stats_load.0': 7, 'stats_load.1': 6, 'lg_on_free.0': 6, 'lg_allocated.0': 6, 'lg_freed.0': 6, 'verif_memcpy_w.0': 10, 'harness.0': 6, 'harness.1': 6, 'memcmp.0': 10}
+UNW = {0: 8, 1: 7, 2: 19, 3: 258, 4: 258}      # real-code loops: bounded by the node capacity handled per class; the 256-step spec loops get their own bound
 for kind in range(5):
     n = CLSN.get(kind, 4)
     job('tree.db64.get.k%d' % kind, ['C01', 'C16'], 'u_db', 'proofs/tree/get.c', defines=['KIND=%d' % kind, 'POL=DB64'],
@@ -20,9 +21,9 @@ for kind in range(5):
     n = CLSN.get(kind, 4)
     roots = {'INSERT_INTERNAL': D64 + r'insert_internal\(', 'NODE_FIND': node_rx(n) + r'find_child\(std::byte\)'}
     if kind == 3: roots['N48_ADD'] = node_rx(48) + r'add_to_nonfull\('
-    job('tree.db64.insert.k%d' % kind, ['C01', 'C08', 'C10', 'C16'], 'u_db', 'proofs/tree/insert.c', defines=['KIND=%d' % kind, 'POL=DB64'], roots=roots, stubs=ADT,
+    job('tree.db64.insert.k%d' % kind, ['C01', 'C08', 'C10', 'C16'] if kind == 0 else [], 'u_db', 'proofs/tree/insert.c', tier=('quick' if kind == 0 else 'off'), defines=['KIND=%d' % kind, 'POL=DB64'], roots=roots, stubs=ADT,
         cut=['INSERT_INTERNAL/while_2ebody'], cfgs=CFG_TREE, thorough_cfgs=ALL_CFGS, unwind=UNW[kind], unwindset_raw=SPEC_LOOPS, unwindset=({'N48_ADD': 8} if kind == 3 else None),
-        floor=100, timeout=1800, mem_gb=20, objbits=14,
+        floor=20, timeout=1800, mem_gb=20, objbits=14, memsafe=False,
         under_contract=['db<uint64_t>::insert_internal (step at node kind %d)' % kind, 'impl_helpers::add_or_choose_subtree', 'make_db_leaf_ptr', 'basic_leaf ctor', 'inode_4::create (two-leaf and prefix-split ctors)', 'growing ctor of the next class', 'db_inode_deleter', 'db statistics updates'],
         trusted=['definitional unfolding of the abstract map M', 'node_ptr as an abstract data type', 'memcpy of symbolic length: witness-only pointwise contract'])
 job('tree.db64.make_leaf', ['C01', 'C08', 'C10'], 'u_db', 'proofs/tree/leafmk.c', defines=['POL=DB64'], roots={'MK_LEAF': r'^auto unodb::detail::make_db_leaf_ptr<unsigned long, .*unodb::db>\('},
@@ -31,7 +32,7 @@ job('tree.db64.make_leaf', ['C01', 'C08', 'C10'], 'u_db', 'proofs/tree/leafmk.c'
 for kind in range(5):
     n = CLSN.get(kind, 4)
     roots = {'REMOVE_INTERNAL': D64 + r'remove_internal\(', 'NODE_FIND': node_rx(n) + r'find_child\(std::byte\)', 'SURV_FIND': node_rx(4) + r'find_child\(std::byte\)'}
-    job('tree.db64.remove.k%d' % kind, ['C01', 'C08', 'C10', 'C16'], 'u_db', 'proofs/tree/remove.c', defines=['KIND=%d' % kind, 'POL=DB64', 'SURV=1'], roots=roots, stubs=ADT,
-        cut=['REMOVE_INTERNAL/while_2ebody'], cfgs=CFG_TREE, thorough_cfgs=ALL_CFGS, unwind=UNW[kind], unwindset_raw=SPEC_LOOPS, floor=100, timeout=1800, mem_gb=20, objbits=14,
+    job('tree.db64.remove.k%d' % kind, ['C01', 'C08', 'C10', 'C16'] if kind <= 1 else [], 'u_db', 'proofs/tree/remove.c', tier=('quick' if kind <= 1 else 'off'), defines=['KIND=%d' % kind, 'POL=DB64', 'SURV=1'], roots=roots, stubs=ADT,
+        cut=['REMOVE_INTERNAL/while_2ebody'], cfgs=CFG_TREE, thorough_cfgs=ALL_CFGS, unwind=UNW[kind], unwindset_raw=SPEC_LOOPS, floor=20, timeout=1800, mem_gb=20, objbits=14, memsafe=False,
         under_contract=['db<uint64_t>::remove_internal (step at node kind %d)' % kind, 'impl_helpers::remove_or_choose_subtree', 'basic_inode::remove', 'shrinking ctor of the next smaller class', 'basic_inode_4::leave_last_child', 'key_prefix::prepend', 'db_leaf_deleter / db_inode_deleter', 'db statistics updates'],
         trusted=['definitional unfolding of the abstract map M', 'node_ptr as an abstract data type'])
